@@ -910,7 +910,9 @@ void processFunction(Ctx& C, const FunctionDecl* FD, int parentId) {
     return;
   if (FD->isDependentContext() || FD->isInvalidDecl())
     return;
-  if (FD->isDefaulted() && !FD->isUserProvided())
+  // implicitly declared special members are skipped; `= default`ed ones are part of the source
+  // (their synthesised member-wise body is what the class does on copy/move) and are analysed
+  if (FD->isDefaulted() && !FD->isUserProvided() && !FD->isExplicitlyDefaulted())
     return;
   const FunctionDecl* Pat = patternOf(FD);
   std::string file = fileOf(C, Pat->getLocation());
